@@ -190,6 +190,12 @@ func runProto(p *lua.FunctionProto, timeout time.Duration) (outcome string) {
 	if backstop < 2*time.Minute {
 		backstop = 2 * time.Minute
 	}
+	if timeout < time.Second {
+		// arbitrary generated programs (no expected result: "timeout" is only counted, never a verdict) may double a string
+		// in a loop; the instruction budget alone would let them allocate 2^(instructions) bytes, so these runs also end
+		// after a short wall-clock time
+		backstop = 400 * time.Millisecond
+	}
 	ctx, cancel := newBudgetCtxWithBackstop(int64(timeout/time.Millisecond)*20000, backstop)
 	defer cancel()
 	L.SetContext(ctx)
